@@ -10,6 +10,10 @@ package main
 //   * a malformed message / unknown method is answered with an error
 //   * a record read back (get, query result, notification) has the content last written through the
 //     API for that key, apart from the added _meta section, which must be present and name the key
+//   * "query yields zero or more ok records" of the query, "sub yields upd/new/del notifications for matching
+//     changes": for where clauses the harness printed from its own condition tree (ownquery.go) every record
+//     returned / announced satisfies the clause, and every record known to be in the queried database under the
+//     queried prefix that satisfies it is returned (no paging clause); evaluated without database/query
 //
 // It never looks at the model's output.
 
@@ -144,6 +148,7 @@ func monitor(c hxlib.Case, outs []string) (vs []hxlib.Violation) {
 	acc := newAcceptor()
 	ops := map[string]bool{}
 	store := map[string]*written{}
+	subQ := map[string][]*ownQuery{} // per operation ID: the queries of the subscriptions opened under it (nil entry: not judged)
 	for i, l := range c.Lines {
 		f := strings.Fields(l)
 		o := outs[i]
@@ -210,6 +215,18 @@ func monitor(c hxlib.Case, outs []string) (vs []hxlib.Violation) {
 			continue
 		}
 		ownOK, ownErr := false, false
+		var oq *ownQuery
+		returned := map[string]bool{}
+		ownDone := false
+		if f[0] == "m" && (cls.Kind == "query" || cls.Kind == "sub" || cls.Kind == "qsub") {
+			oq = parseOwnQuery(cls.Arg)
+			if cls.Kind != "query" {
+				subQ[string(cls.Op)] = append(subQ[string(cls.Op)], oq)
+			}
+			if cls.Kind == "sub" {
+				oq = nil // no query part
+			}
+		}
 		if batch != "-" {
 			for _, e := range strings.Fields(batch) {
 				ce := parseCanon(e)
@@ -233,6 +250,34 @@ func monitor(c hxlib.Case, outs []string) (vs []hxlib.Violation) {
 				}
 				if ce.op == string(cls.Op) && ce.typ == "error" {
 					ownErr = true
+				}
+				if ce.op == string(cls.Op) && ce.typ == "done" {
+					ownDone = true
+				}
+				// which records: a record returned for the query satisfies it
+				if oq != nil && ce.typ == "ok" && ce.op == string(cls.Op) {
+					returned[ce.key] = true
+					if m, ok := ownObject(ce.body); ok && !ce.opaque && !oq.cond.eval(m) {
+						add(i, "C13:query-result-not-matching:"+kind, fmt.Sprintf("record %q with content %q was returned for the query %q, whose where clause it does not satisfy", ce.key, ce.body, cls.Arg))
+					}
+				}
+				// a record announced under the operation ID of subscriptions satisfies the query of one of them
+				if ce.typ == "chg" || ce.typ == "new!" || ce.typ == "upd!" {
+					if qs := subQ[ce.op]; len(qs) > 0 {
+						if m, ok := ownObject(ce.body); ok && !ce.opaque {
+							judged, sat := true, false
+							for _, q := range qs {
+								if q == nil {
+									judged = false
+								} else if q.cond.eval(m) {
+									sat = true
+								}
+							}
+							if judged && !sat {
+								add(i, "C13:notification-not-matching:"+kind, fmt.Sprintf("record %q with content %q was announced under operation ID %q, but satisfies the where clause of none of the subscriptions opened under it (%q …)", ce.key, ce.body, ce.op, "query "+qs[0].db+":"+qs[0].prefix+" where "+qs[0].cond.print(true)))
+							}
+						}
+					}
 				}
 				// read-back
 				if ce.typ == "ok" || ce.typ == "chg" || ce.typ == "new!" || ce.typ == "upd!" {
@@ -283,6 +328,24 @@ func monitor(c hxlib.Case, outs []string) (vs []hxlib.Violation) {
 			case "delete":
 				if ownOK {
 					delete(store, normKey(cls.Arg))
+				}
+			case "query", "qsub":
+				// every record known to be there (written through the API as a JSON object, acknowledged, not touched
+				// since) that satisfies the query is among its results
+				if oq != nil && !oq.paging && ownDone && !ownErr && kindOfDb[oq.db] != "" && kindOfDb[oq.db] != "s" {
+					for key, w := range store {
+						if !w.readable || w.opaque || len(w.payloads) == 0 || returned[key] {
+							continue
+						}
+						dn, dk := dbOfKey(key)
+						if dn != oq.db || !strings.HasPrefix(dk, oq.prefix) {
+							continue
+						}
+						if m, ok := ownObject(w.payloads[len(w.payloads)-1]); ok && oq.cond.eval(m) {
+							add(i, "C13:query-result-missing:"+kind, fmt.Sprintf("record %q (content %q, written through the API and not touched since) satisfies the query %q but was not returned", key, w.payloads[len(w.payloads)-1], cls.Arg))
+							break
+						}
+					}
 				}
 			}
 			// quiet point: one-shot requests and queries are complete
